@@ -26,7 +26,7 @@ from data_if import DATAInterface
 from udp_link import UDPLink
 from trx_list import TRXList
 
-from gsm_shared import HoppingParams
+from gsm_shared import HoppingParams, GSM_HYPERFRAME
 
 class Transceiver:
 	""" Base transceiver implementation.
@@ -314,12 +314,15 @@ class Transceiver:
 
 		with self._tx_queue_lock:
 			for msg in self._tx_queue:
-				if msg.fn < fn:
-					drop.append(msg)
-				elif msg.fn == fn:
+				# TDMA frame numbers wrap around at the hyperframe boundary,
+				# so "before" / "after" must be decided modulo GSM_HYPERFRAME
+				delta = (msg.fn - fn) % GSM_HYPERFRAME
+				if delta == 0:
 					emit.append(msg)
-				else:
+				elif delta < GSM_HYPERFRAME // 2:
 					wait.append(msg)
+				else:
+					drop.append(msg)
 
 			self._tx_queue = wait
 
